@@ -364,6 +364,69 @@ def w_real(job):
                 pass
             if time.time() - t0 > 30:
                 prob, detail = 'dead-executable-hangs', '%.1f s' % (time.time() - t0)
+        elif which in ('prepare-then-call-later', 'first-call-from-short-lived-thread'):
+            # the thread that launched the server is gone by the time the session is used: the server must still be there
+            import threading
+            env = Environment(env={'SUPP_LOG_LEVEL': '100', 'PYTHONPATH': core.REPO})
+            if which == 'prepare-then-call-later':
+                env.prepare()
+                t0 = time.time()
+                while (env.prepare_thread is not None or not hasattr(env, 'conn')) and time.time() - t0 < 15:
+                    time.sleep(0.05)
+            else:
+                box = {}
+                t = threading.Thread(target=lambda: box.setdefault('r', [env.configure({'sources': ['.']}), env.lint('x = 1\n', 'a.py')][1]))
+                t.start()
+                t.join(30)
+                if box.get('r') != []:
+                    prob, detail = 'first-call-from-thread-unanswered', repr(box)
+            time.sleep(1.0)
+            if prob is None:
+                p1 = getattr(env, 'proc', None)
+                if p1 is None or p1.poll() is not None:
+                    prob, detail = 'server-gone-after-launching-thread-ended', 'server exit status %r one second after the thread that launched it had finished' % (p1.poll() if p1 else None,)
+                else:
+                    try:
+                        env.configure({'sources': ['.']})
+                        r = env.lint('x = 1\n', 'a.py')
+                        if r != [] or env.proc.pid != p1.pid:
+                            prob, detail = 'call-after-launching-thread-ended', 'reply %r, server pid %s (launched: %s)' % (r, env.proc.pid, p1.pid)
+                    except Exception as e:
+                        prob, detail = 'call-after-launching-thread-ended', 'raised %r' % (e,)
+            try:
+                env.close()
+                env.proc.wait(timeout=10)
+            except Exception:
+                try:
+                    env.proc.kill()
+                except Exception:
+                    pass
+        elif which == 'server-slow-to-listen':
+            # the handshake while the server is between bind() and listen(): connection attempts are refused for a while, then succeed
+            import tempfile
+            d = tempfile.mkdtemp(prefix='c16listen_')
+            try:
+                with open(os.path.join(d, 'sitecustomize.py'), 'w') as f:
+                    f.write('import socket, time\n_listen = socket.socket.listen\ndef listen(self, *a):\n    time.sleep(1.3)\n    return _listen(self, *a)\nsocket.socket.listen = listen\n')
+                env = Environment(env={'SUPP_LOG_LEVEL': '100', 'PYTHONPATH': d + os.pathsep + core.REPO})
+                try:
+                    env.configure({'sources': ['.']})
+                    r = env.lint('x = 1\n', 'a.py')
+                    if r != []:
+                        prob, detail = 'slow-listen-wrong-reply', repr(r)
+                except Exception as e:
+                    prob, detail = 'handshake-fails-while-server-is-about-to-listen', 'first call raised %r although the server was up 1.3 s later' % (e,)
+                try:
+                    env.close()
+                    env.proc.wait(timeout=10)
+                except Exception:
+                    try:
+                        env.proc.kill()
+                    except Exception:
+                        pass
+            finally:
+                import shutil
+                shutil.rmtree(d, ignore_errors=True)
         elif which == 'slow-executable-then-retry':
             # launch failure by time-out: the interpreter needs longer than the client waits. The caller gets an exception; the
             # process it launched must not stay behind, and the next call (with a working interpreter) gets exactly one server
@@ -417,7 +480,7 @@ def w_real(job):
     return sh.result()
 
 
-REAL = ['close-then-reuse', 'reuse-while-old-server-exits-slowly', 'close-without-session', 'client-exits', 'client-killed', 'client-closes-connection', 'unstartable-executable', 'executable-exits-at-once', 'slow-executable-then-retry']
+REAL = ['close-then-reuse', 'reuse-while-old-server-exits-slowly', 'close-without-session', 'client-exits', 'client-killed', 'client-closes-connection', 'unstartable-executable', 'executable-exits-at-once', 'slow-executable-then-retry', 'prepare-then-call-later', 'first-call-from-short-lived-thread', 'server-slow-to-listen']
 
 
 def run(run):
